@@ -161,7 +161,7 @@ func run(r *mon.Run) {
 		}
 		spec.Status = mon.Pick(g, []int{200, 200, 203, 404, 302, 500})
 		if ver != version.Version1b3 {
-			spec.Method = mon.Pick(g, []string{"GET", "GET", "HEAD", "POST"})
+			spec.Method = mon.Pick(g, []string{"GET", "GET", "HEAD", "POST", "get", "Head", "pOsT", "PATCH", "M-SEARCH"}) // methods are case-sensitive tokens: written and read back as given
 			spec.ReqHeaders = http.Header{}
 			if g.Chance(1, 3) {
 				spec.ReqHeaders["Accept"] = []string{"*/*", "text/html"}
